@@ -61,7 +61,9 @@ DIRECT_EDIT_PROGRAMS = {
 
 def annotatable_lines(text: str) -> List[int]:
     """0-based indices of physical lines to which a trailing comment can be appended without changing the program."""
-    lines = text.splitlines()
+    lines = text.split("\n")          # the lines annotate() numbers (str.splitlines also splits at form feeds and unicode separators)
+    if lines and lines[-1] == "":
+        lines.pop()
     bad = set()
     try:
         toks = list(tokenize.generate_tokens(io.StringIO(text).readline))
